@@ -17,7 +17,9 @@ Inductive xcase :=
 | XTi (c : tcfg) (ops : list top) (expect : list (option Z))
 (* SecureMemoryPool: local_cache_size, history, and after every operation the result and the whole bookkeeping state
    (local cache, shared stack, size of the active table) *)
-| XSec (lcache : N) (ops : list sop) (expect : list (option Z)).
+| XSec (lcache : N) (ops : list sop) (expect : list (option Z))
+(* MemoryPool: max_chunks, history, per allocation: pool hit, serial of the chunk; per deallocation: kept / released *)
+| XMp (max : N) (ops : list mop) (expect : list (option Z)).
 
 Definition xok (x : xcase) : bool :=
   match x with
@@ -29,4 +31,5 @@ Definition xok (x : xcase) : bool :=
   | XTl ic c ops e => eqb_ln' ic TLS_SIZE_CLASSES && eqb_loz (tl_observe c ops) e
   | XTi c ops e => eqb_loz (t_observe c ops) e
   | XSec lc ops e => eqb_loz (s_observe lc ops) e
+  | XMp mx ops e => eqb_loz (m_observe mx ops) e
   end.
